@@ -73,7 +73,7 @@ def _data_cell(rng, htype, spine, p_null=0.15, chords=True, rest_in_chord=0.03):
 
 def gen_doc(rng, *, kern_only=False, max_spines=4, splits=True, core=False, comments=True, measures=None,
             mid_signatures=True, opening_barline=None, final_barline=None, chords=True, free_headers=False,
-            hidden_barlines=False, force_clef=False, plain_acc=False, rest_in_chord=0.03, clef_in_split=0.0, nested=0.5, early_end=0.0, types=None):
+            hidden_barlines=False, force_clef=False, plain_acc=False, rest_in_chord=0.03, clef_in_split=0.0, nested=0.5, early_end=0.0, types=None, twins=0.15, bboxes=0.0):
     """core=True: signatures only before the first measure, splits re-joined before the next barline (C08's core)"""
     g = GenDoc()
     tokens.PLAIN_ACC = plain_acc
@@ -133,9 +133,21 @@ def gen_doc(rng, *, kern_only=False, max_spines=4, splits=True, core=False, comm
             else:
                 interp_row(METSYMS)
 
+    def bbox_row():
+        # image annotations of an OMR corpus: one bounding box per kern-like cell (sometimes for all cells)
+        page = rng.randint(1, 3)
+        everywhere = rng.random() < 0.3
+        row(lambda i, sp, ht: Cell(f'*xywh-{page}:{rng.randint(0, 900)},{rng.randint(0, 900)},{rng.randint(1, 99)},{rng.randint(1, 99)}'
+                                   if (everywhere or is_kernlike(ht)) and rng.random() < 0.85 else '*', 'interp', sp, ht))
+        g.flags.add('bbox')
+
     if rng.random() < 0.3:
         interp_row(['*staff1', '*staff2', '*Ipiano', '*Ivioln'])
+    if bboxes and rng.random() < bboxes:
+        bbox_row()
     signature_rows(core)
+    if bboxes and rng.random() < bboxes:
+        bbox_row()
     if rng.random() < 0.3 and not core:
         interp_row(TANDEM)
     nmeasures = measures if measures is not None else rng.randint(1, 4)
@@ -194,6 +206,9 @@ def gen_doc(rng, *, kern_only=False, max_spines=4, splits=True, core=False, comm
                 row(lambda i, sp, ht: Cell('.', 'null', sp, ht))
                 g.flags.add('null-row')
                 continue
+            if bboxes and r > 1 - bboxes / 3:
+                bbox_row()
+                continue
             if mid_signatures and not core and r < 0.24:
                 interp_row(rng.choice([CLEFS, KEYSIGS, METERS, TANDEM]))
                 g.flags.add('mid-signature')
@@ -247,6 +262,15 @@ def gen_doc(rng, *, kern_only=False, max_spines=4, splits=True, core=False, comm
     if comments and rng.random() < 0.2:
         g.lines.append(('global', '!!!EEV: after'))
         g.flags.add('comment-after')
+    # twins: a cell of a non-kern spine spelled exactly like a note or rest of a kern spine of the same document (a lyric
+    # "4c", a dynamic written like a note): same text, different spine type, different category
+    if twins and rng.random() < twins:
+        notes = [c for kind, payload in g.lines if kind == 'row' for c in payload if c.kind in ('note', 'rest')]
+        frees = [c for kind, payload in g.lines if kind == 'row' for c in payload if c.kind == 'free']
+        if notes and frees:
+            for fc in rng.sample(frees, min(len(frees), rng.randint(1, 2))):
+                fc.text = rng.choice(notes).text
+            g.flags.add('twins')
     return g
 
 
